@@ -485,6 +485,7 @@ class C17(Prop):
                         s["raised"] = _exc(e)   # refusals, or kernels asserting on a poked (no longer valid) object;
                                                 # the frame conditions below are judged regardless
                 elif act == "inplace":
+                    x = K.aux()        # fresh external objects for every step: two slots never receive the same gate / map
                     ent = im[(scn["salt"] + 5 * j) % len(im)] if im else None
                     s["o"] = "s%d" % st[1]
                     s["meth"] = ent[0] if ent else "none"
